@@ -175,17 +175,24 @@ def sortcorr_cases(ctx, cfg):
         cases = []
         with open(out) as f:
             for line in f:
-                c = json.loads(line)
-                n = sum(c['lens'])
+                c0 = json.loads(line)
+                n = sum(c0['lens'])
                 corr = np.array([[100.0 * (i + 1) + (j + 1) for j in range(n)] for i in range(n)])
-                yd = {k: list(range(ln)) for k, ln in zip(c['kl'], c['lens'])}
-                try:
-                    res = pe.obs.sort_corr(corr, list(c['kl']), yd)
-                    c['res'] = mat(res)
-                except Exception as e:  # noqa: BLE001
-                    c['res'] = [[rat(0)]]
-                c['corr'] = mat(corr)
-                cases.append(c)
+                # the data dictionary is filled in the order of the key list, in reversed and in sorted order: its insertion order says nothing
+                pairs = list(zip(c0['kl'], c0['lens']))
+                for tag, order in (('', pairs), ('-ydrev', pairs[::-1]), ('-ydsorted', sorted(pairs))):
+                    if tag and order == pairs:
+                        continue
+                    c = dict(c0)
+                    c['id'] = c0['id'] + tag
+                    yd = {k: list(range(ln)) for k, ln in order}
+                    try:
+                        res = pe.obs.sort_corr(corr, list(c['kl']), yd)
+                        c['res'] = mat(res)
+                    except Exception as e:  # noqa: BLE001
+                        c['res'] = [[rat(0)]]
+                    c['corr'] = mat(corr)
+                    cases.append(c)
         ctx.extra['tlc_enumerated_sortcorr'] = len(cases)
         return cases
     finally:
